@@ -40,7 +40,7 @@ pub fn md_from_raw(raw: u32) -> Md {
     (a, (raw >> 8) % P as u32)
 }
 
-#[derive(Clone, Debug)]
+#[derive(Clone, Debug, Default)]
 pub struct It {
     pub id: u32,
     pub val: u32,
@@ -326,7 +326,7 @@ pub fn run_case(case: &Case) -> CaseResult {
         match op {
             Op::NewEmpty => {
                 if np < MAX_POOL {
-                    ip.pool.push(Slot { t: Treap::new(), m: vec![] });
+                    ip.pool.push(Slot { t: if step % 2 == 0 { Treap::new() } else { Treap::default() }, m: vec![] });
                     touched.push(np);
                 }
             }
